@@ -123,12 +123,13 @@ def gen_csv(rng):
 
 
 def gen_scot(rng):
-    n = rng.randint(1, 6)
-    names = rng.sample(["Paul", "George", "Ringo", "John Lennon", "O'Hara", "Ünal", "de la Cruz", "Mc Tab"], n)
+    n = rng.randint(1, 6) if rng.random() < 0.8 else rng.randint(7, 14)  # "any candidate count": two-digit candidate numbers too
+    pool = ["Paul", "George", "Ringo", "John Lennon", "O'Hara", "Ünal", "de la Cruz", "Mc Tab", "Yoko", "Zed Z", "Stu", "Pete B", "Linda", "Billy P", "Klaus V", "Mal E"]
+    names = rng.sample(pool, n)
     parties = [rng.choice(["Orange (O)", "Yellow, Party (Y)", "Red (R)", "Independent", "Green"]) for _ in names]
     rows = []
     for _ in range(rng.randint(0, 8)):
-        k = rng.randint(1, n)
+        k = rng.randint(1, min(n, 6)) if rng.random() < 0.8 else rng.randint(1, n)
         rows.append([rng.choice([1, 1, 2, 9, 126])] + rng.sample(range(1, n + 1), k))
     fault = G.wchoice(rng, [(None, 70), ("missing", 5), ("zero_byte", 5), ("meta_short", 5), ("meta_long", 5), ("overcount", 5), ("undercount", 5 if n > 1 else 0)])
     return {"kind": "scot", "n": n, "seats": rng.randint(1, n), "names": names, "parties": parties, "rows": rows, "ward": rng.choice(["Wardy McWard Ward", "Ward 7", "North, East"]),
